@@ -26,7 +26,7 @@ type TFact struct {
 	Held   []string
 	Stack  []string
 	Frames []ssa.Instruction // call chain from the entry point (call instructions, outermost first)
-	Map    string // mapop: recv.<field>
+	Map    string            // mapop: recv.<field>
 	Method string
 	Key    *Org
 	Val    *Org
@@ -427,9 +427,7 @@ func sortFacts(fs []TFact) {
 	sort.SliceStable(fs, func(i, j int) bool { return fs[i].Ins.Pos() < fs[j].Ins.Pos() })
 }
 
-
 var _ = token.ADD
-
 
 // LiftTo: the instruction of fn at which the fact happens: the fact's own
 // instruction when it was recorded in fn, else the call instruction in fn
@@ -469,7 +467,6 @@ func happensBefore(a, b TFact) bool {
 	}
 	return dominatesInstr(ai, bi)
 }
-
 
 // Before: whenever fact b happens, fact a has happened earlier in the same
 // activation (dominance in the deepest function their call chains share,
@@ -518,7 +515,6 @@ func (t *Tracker) unavoidableBelow(f TFact, fn *ssa.Function) bool {
 	return true
 }
 
-
 // normLookup: result 0 of the locked map's Load(key) is the entry stored
 // under key, like the value a WithLockedValueDo callback receives: both are
 // rendered as lookup{map.m, key}.
@@ -540,7 +536,6 @@ func (t *Tracker) normLookup(r *Resolver, o *Org) *Org {
 	inner := &Org{K: "field", Name: "m", Sub: []*Org{r.Of(cl.Call.Args[0])}}
 	return &Org{K: "lookup", V: cl, Sub: []*Org{inner, r.Of(cl.Call.Args[1])}}
 }
-
 
 // freshCtor: the result of a repository constructor function every return of
 // which yields one and the same struct literal allocated in that function is
@@ -595,7 +590,6 @@ func freshCtor(o *Org) *Org {
 	return &Org{K: "alloc", V: lit, Name: typeName(deref(lit.Type()))}
 }
 
-
 // isZeroOrg: the origin is the zero value of its type (false, nil, 0, "",
 // an all-zero struct).
 func isZeroOrg(o *Org) bool {
@@ -616,7 +610,6 @@ func isZeroOrg(o *Org) bool {
 	}
 	return false
 }
-
 
 // sessionValuesNonNil: every Store into the sessions map stores a value that
 // is not nil (a fresh object, or an object known non-nil): a nil test of a
